@@ -18,11 +18,20 @@ fn main() {
         }
     }));
     let args = util::Args::parse(&argv[2..]);
-    match argv[1].as_str() {
-        "ints" => ints::record(&args),
-        "conditions" => conditions::record(&args),
-        "relations" => relations::record(&args),
-        "timelocks" => timelocks::record(&args),
+    let h = std::thread::Builder::new().stack_size(2 << 30).spawn(move || run(&argv[1], &args)).expect("spawn");
+    if h.join().is_err() {
+        std::process::exit(101);
+    }
+}
+
+fn run(domain: &str, args: &util::Args) {
+    let args = args.clone();
+    let args = &args;
+    match domain {
+        "ints" => ints::record(args),
+        "conditions" => conditions::record(args),
+        "relations" => relations::record(args),
+        "timelocks" => timelocks::record(args),
         d => {
             eprintln!("unknown domain {d}");
             std::process::exit(2);
